@@ -194,6 +194,9 @@ let cmd_query (graph_file : string) =
                 hexb d.pd_name ^ "(" ^ String.concat ";" (List.map (fun (t, n) -> hexb t ^ ":" ^ hexb n) d.pd_params) ^ ")") q.q_preds));
             Printf.printf "COND %s\n" (hexb (expanded_condition q));
             Printf.printf "INFRAG %s\n" (b01 (in_fragment q g));
+            (* do the hypotheses of C01_complete / C02_sound_spec hold?  wf_query (predicate calls only in the boolean skeleton:
+               a call as an operand of == has no meaning in seval) and the specification not Unknown on any candidate *)
+            Printf.printf "SPECDEF %s\n" (b01 (wf_query q && List.for_all (fun t -> match spec_accepted q t with Unknown -> false | _ -> true) (candidates q g)));
             let rs = results q g in
             let sp = spec_results q g in
             Printf.printf "SPECSAME %s\n" (b01 (List.length rs = List.length sp && List.for_all2 (fun a b -> List.for_all2 (fun (x : node) (y : node) -> x.n_idpre = y.n_idpre) a b) rs sp));
